@@ -39,6 +39,52 @@ def run(cx):
     window_walks(cx, "C11.o")
     from props.shared import loss_rate_shape
     loss_rate_shape(cx, "C11.p")
+    sync_timer_writers(cx, "C11.q")
+
+
+def sync_timer_writers(cx, iid):
+    """the sync timer measures how long *this side has been silent*: it restarts only when a frame has just been
+    handed to the sink (data callback, sync emitter).  A restart anywhere else - for instance on reception -
+    postpones the resynchronising sync frame for as long as the peer keeps talking, and a window full of lost
+    frames never reopens."""
+    R = cx.R
+    with cx.instance(iid, "T9 WHO-MAY-WRITE + T2 order", "sync_timeout_base_ms is written only by the constructor and right after a frame was handed to the sink (emit_sync_frame, the data-frame callback)", floor=3) as inst:
+        allowed = {HC + "new": "ctor", HC + "emit_sync_frame": "send", HC + "emit_data_frames::{closure#0}": "send", HC + "emit_data_frames": "lend"}
+        parent = R.body(HC + "emit_data_frames")
+        cbp = HC + "emit_data_frames::{closure#0}"
+        cap = None
+        for loc, st in parent.assigns():
+            if st["rv"]["k"] == "agg" and st["rv"].get("ak") == "closure" and st["rv"]["closure"].endswith("emit_data_frames::{closure#0}"):
+                ops = [show(parent.operand_expr(o)) for o in st["rv"]["ops"]]
+                if "arg1.sync_timeout_base_ms" in ops:
+                    cap = ops.index("arg1.sync_timeout_base_ms")
+        for b in R.all_bodies():
+            if "half_connection::HalfConnection::" not in b.path:
+                continue
+            is_cb = b.path.endswith("emit_data_frames::{closure#0}")
+            ws = []
+            if is_cb and cap is not None:
+                ws = [(l, "captured") for l, n, ps in b.field_writes(r"arg1\.%d" % cap)]
+            ws += [(l, "field") for l, n, ps in b.field_writes(r"arg1\.sync_timeout_base_ms")]
+            # a mutable borrow of the field hands the right to write it to whoever receives the reference
+            for loc, st in b.assigns():
+                rv = st["rv"]
+                if rv["k"] == "ref" and rv.get("mut") and show(b.place_expr(rv["pl"])) == "arg1.sync_timeout_base_ms":
+                    ws.append((loc, "&mut"))
+            for l, how in ws:
+                short = b.path.split("half_connection::", 1)[-1]
+                inst.site(b, l, "%s of sync_timeout_base_ms in %s" % (how, short))
+                kind = None
+                for k, v in allowed.items():
+                    if b.path.endswith(k.split("half_connection::", 1)[-1]):
+                        kind = v
+                if kind is None or (how == "&mut" and kind != "lend"):
+                    inst.violation(b.path, "write of sync_timeout_base_ms", "%s restarts the sync timer; only sending a frame may (a restart on reception or elsewhere postpones the resynchronising sync frame while the peer keeps talking)" % short, at=b.span_at(l))
+                    continue
+                if kind == "send" and how != "&mut":
+                    sends = [sl for sl, t in b.calls() if re.search(r"(FrameSink::send|::send)$", R.short(t.get("fn") or "")) or (t.get("fn") or "").endswith("FrameSink::send")]
+                    if not sends or b.reach_from_entry_avoiding(l, sends) is not None:
+                        inst.violation(b.path, "timer restart without send", "%s restarts the sync timer on a path on which no frame was handed to the sink" % short, at=b.span_at(l))
 
 
 def window_limited_still_syncs(cx, iid):
